@@ -62,3 +62,38 @@ TEXT["C06"] = dict(
     level="Exploration with exhaustive small loop counts: every n in -1..6 (12 thorough) for each loop kind, generated bodies with conditionals and loops nested to depth 3; the probe trace (INDEX stack, INTEGER top) is compared event by event with the documented sequence and the loops must leave nothing behind; every single step of these programs and of random control programs is judged against the reference unfolding rules.",
     note="CODE.LOOP's whole-loop behaviour is a known finding (re-arm shape pinned by a unit test); its single-step shape is still judged, so a change to it is reported under a different signature.",
 )
+TEXT["C02"] = dict(
+    technique="runtime monitoring: pair-of-executions comparison (run() vs an independent shadow accounting of step()) + online trace predicate over the run-loop observer hook's events",
+    level="Exploration with exhaustive boundaries: for every limit in a 10-value set and every cap in an 8-value set, programs that need n steps for every n in L-2..L+3 and steps that grow the state by g for every g in cap-2..cap+3, plus diverging, doubling and random RAND-free programs; outcome, executed step count (from the hook) and final state are compared with the shadow; every hook event is checked (counter +1, size_before = size after previous event, no step after cap exceeded, End consistent); time-limit cases with a sleeping harness instruction; empty-EXEC steps from arbitrary states.",
+    note="Uses the verif hook (run-loop observer). The statement's tolerance (StepLimit after L or L+1 steps) is built into the oracle. Time is judged only through a sleep that can only overshoot.",
+)
+TEXT["C07"] = dict(
+    technique="runtime monitoring: differential step monitor over define/use/quote programs + independent environment model (map + quote flag) checked after every step",
+    level="Exploration: thousands of random interleavings of define (8 types) / use / quote / redefine / CODE.DEFINITION over three names from empty and random states; after every interpreter step the complete state (all stacks, name_bindings, quote flag) is compared with the reference rules, and each name use is judged by the environment model.",
+    note="Reference rules for the identifier step and DEFINE family are trusted (dmon.rs::plain_step_expect, refm.rs).",
+)
+TEXT["C11"] = dict(
+    technique="runtime monitoring: round-trip monitor (print -> parse -> compare / print again) over generated trees and all three print paths",
+    level="Exploration: tens of thousands of random trees over lists, ints (incl. MIN/MAX), booleans, parser-producible names, all 280 instruction names, and floats incl. non-finite / -0.0 / third-decimal rounding cases; every tree goes through Item::to_string, PushStack::to_string (several items) and CODE.PRINT; trees from pushr's own generator are round-tripped too.",
+    note="Vector literals inside code are outside the statement (they print without their type prefix) and are not generated.",
+)
+TEXT["C12"] = dict(
+    technique="runtime monitoring: predicate monitors over many draws of the unseedable generators (size, leaf membership, bounds), follow-up execution and round trip of generated programs",
+    level="Exhaustive over the parameter grid (every n in 1..80, every bound in 0..40, every k in 1..60, 3 instruction lists x 3 binding tables x 3 name probabilities, int-pool operands x 6 maxima for CODE.RAND) with D draws per setting; predicates, not equalities.",
+    note="thread_rng cannot be seeded; a defect that shows with probability p per draw is caught with probability 1-(1-p)^D.",
+)
+TEXT["C13"] = dict(
+    technique="runtime monitoring: predicate + statistical monitors (bounds, lengths, TRUE-count, rejection of invalid parameters, per-position reachability with stated false-alarm bound) over the generator API and the RAND instructions",
+    level="Exhaustive over the parameter grid with D draws per setting; reachability of every position judged only when the number of draws makes P(false alarm) <= 1e-12.",
+    note="thread_rng cannot be seeded. TRUE-count tolerance 0.005 n + 1 covers the documented two-decimal rounding.",
+)
+TEXT["C14"] = dict(
+    technique="runtime monitoring: pair-of-executions digest comparison (repeat, 1..16 concurrent threads, debug vs release, CLI vs library), offline uniqueness check of the node-id event log, ThreadSanitizer and Miri (thorough)",
+    level="Exploration: hundreds (thousands thorough) of RAND-free id-free programs compared across repeats, thread counts and build profiles; 800000 (millions thorough) node ids from up to 16 racing threads checked pairwise distinct; thorough runs the concurrent workload under TSan (3 runs) and Miri (8 scheduler seeds). Not an enumeration of interleavings.",
+    note="Programs that leave the resource envelope are skipped (counted). The CLI is compared on terminating programs only (it has no step limit).",
+)
+TEXT["C19"] = dict(
+    technique="runtime monitoring: differential step monitor + conservation ledger (tagged multiset before = after) + multi-step round-trip monitor (ADD -> GET -> execute)",
+    level="Exploration: stack-id vectors over all valid and invalid ids with repeats, unique values on every typed stack, record positions and n over {MIN,-1,0..size+1,MAX}; every LIST.* step compared with the reference; ADD additionally by an independent conservation ledger; the round trip must restore every stack exactly.",
+    note="LIST.SET on an empty CODE stack addresses no record and is not judged (outside the statement).",
+)
